@@ -103,19 +103,23 @@ def _on_case_alarm(signum, frame):
     raise CaseTimeout("".join(tb.format_stack(frame)[-8:]))
 
 
-def run_case(prop, case):
+def run_case(prop, case, limit=None, timeout_is_violation=True):
     """run one case in isolation; returns Result. Unexpected exceptions propagate (harness error).
     A case that runs longer than prop.CASE_TIMEOUT_S is reported as a violation '<ID>:case-timeout'
     (the stack at the time of the alarm is the detail)."""
     reset_globals()
-    limit = getattr(prop, "CASE_TIMEOUT_S", 120)
+    if limit is None:
+        limit = getattr(prop, "CASE_TIMEOUT_S", 120)
     old = signal.signal(signal.SIGALRM, _on_case_alarm)
     signal.setitimer(signal.ITIMER_REAL, limit)
     try:
         res = prop.run(case)
     except CaseTimeout as e:
         res = Result()
-        res.violate("%s:case-timeout" % prop.ID, "case still running after %ds; stack:\n%s" % (limit, e))
+        if timeout_is_violation:
+            res.violate("%s:case-timeout" % prop.ID, "case still running after %ds; stack:\n%s" % (limit, e))
+        else:
+            res.label("fixed-case-over-time-budget(inconclusive)")
     finally:
         signal.setitimer(signal.ITIMER_REAL, 0)
         signal.signal(signal.SIGALRM, old)
@@ -189,7 +193,10 @@ def worker_collect(args):
         for i, case in enumerate(fixed):
             if i % NSHARDS != k:
                 continue
-            res = run_case(prop, case)
+            # bundled examples can be large: a generous budget, and running out of it is
+            # "inconclusive", never a violation
+            res = run_case(prop, case, limit=getattr(prop, "FIXED_TIMEOUT_S", 900),
+                           timeout_is_violation=False)
             account(case, res, "fixed")
 
         if n > 0:
